@@ -489,14 +489,16 @@ def rounds_session(g):
     # ---- chain (C11, C06 partition independence)
     ex9, ex10 = Exporter(g, "v9"), Exporter(g, "ipfix")
     pks = packet_sequence(g, r.choice([2, 3, 4, 6, 8, 12]), ex9, ex10)
-    ops += ops_reset(("W", "S", "F"))
+    ops += ops_reset(("W", "S", "F", "T"))
     ops.append(call("W", [x for _, pk in pks for x in pk]))
+    ops.append(call("T", [x for _, pk in pks for x in pk]))
     for grp in cuts(g, len(pks)):
         ops.append(call("S", [x for i in grp for x in pks[i][1]]))
     for _, pk in pks:
         ops.append(call("F", pk))
     ops.append({"op": "round", "kind": "chain", "a": "W", "b": "F", "c": ""})
     ops.append({"op": "round", "kind": "chain", "a": "S", "b": "F", "c": ""})
+    ops.append({"op": "round", "kind": "twins", "a": "W", "b": "T", "c": ""})
     # ---- filter (C12)
     ex9, ex10 = Exporter(g, "v9"), Exporter(g, "ipfix")
     hist = packet_sequence(g, r.choice([0, 2, 4]), ex9, ex10)
@@ -602,3 +604,16 @@ def scale_sessions(g, tier):
     for s in S:
         ops += s
     return ops
+
+
+def floats_session(g):
+    """IPFIX Float64 fields with NaN / infinities / signed zero, a 16-byte counter, an empty string (C16 quantifier)"""
+    r = g.r
+    tm = b16(256) + b16(4) + b16(311) + b16(8) + b16(1) + b16(16) + b16(320) + b16(8) + b16(147) + b16(0)
+    specials = [[0x7F, 0xF8, 0, 0, 0, 0, 0, 1], [0x7F, 0xF0, 0, 0, 0, 0, 0, 0], [0xFF, 0xF0, 0, 0, 0, 0, 0, 0],
+                [0x80, 0, 0, 0, 0, 0, 0, 0], [0x3F, 0xF8, 0, 0, 0, 0, 0, 0], [0x7F, 0xEF, 255, 255, 255, 255, 255, 255]]
+    recs = []
+    for _ in range(r.choice([1, 2, 4])):
+        recs += r.choice(specials) + r.choice([[255] * 16, [0] * 15 + [1], g.rbytes(16)]) + r.choice(specials)
+    msg = g.ix_msg([g.set_(2, tm), g.set_(256, recs)])
+    return ops_reset(("A",)) + [call("A", msg)]
